@@ -13,17 +13,20 @@ EXTENDS StaticRouteOps
 CONSTANTS Tokens,       \* strings a remainder is assembled from
           MaxTokens,    \* how many
           StartPaths,   \* remainders to start from
-          Fbs, Ranges, Imss
+          Fbs, Ranges,
+          Zones,        \* process time zones
+          ImsFor(_)     \* If-Modified-Since values offered under a zone
 
 VARIABLES phase, rq, ntok, file, opens, resp
 vars == <<phase, rq, ntok, file, opens, resp>>
 
 NoResp == Resp(0, <<>>, NoCR, -1)
-Case(path, fb, head, range, ims) == [path |-> path, fb |-> fb, head |-> head, range |-> range, ims |-> ims]
+Case(path, fb, head, range, ims, zone) ==
+    [path |-> path, fb |-> fb, head |-> head, range |-> range, ims |-> ims, zone |-> zone]
 NoRange == [k |-> "none", a |-> 0, b |-> 0]
 
 Init == /\ phase = "build" /\ ntok = 0 /\ file = FAIL /\ opens = <<>> /\ resp = NoResp
-        /\ \E p \in StartPaths : rq = Case(p, "none", "under", NoRange, "none")
+        /\ \E p \in StartPaths : rq = Case(p, "none", "under", NoRange, NoIms, "UTC")
 
 Extend == /\ phase = "build" /\ ntok < MaxTokens
           /\ \E t \in Tokens : rq' = [rq EXCEPT !.path = @ \o t]
@@ -31,9 +34,9 @@ Extend == /\ phase = "build" /\ ntok < MaxTokens
           /\ UNCHANGED <<phase, file, opens, resp>>
 
 Submit == /\ phase = "build"
-          /\ \E fb \in Fbs, r \in Ranges, i \in Imss,
+          /\ \E fb \in Fbs, r \in Ranges, z \in Zones,
                 h \in (IF rq.path = <<>> THEN {"under", "bare"} ELSE {"under"}) :
-                rq' = Case(rq.path, fb, h, r, i)
+                \E i \in ImsFor(z) : rq' = Case(rq.path, fb, h, r, i, z)
           /\ phase' = "sanitise"
           /\ UNCHANGED <<ntok, file, opens, resp>>
 
@@ -61,11 +64,11 @@ OpenMiss      == /\ phase = "open" /\ OpenResult(Fp) = FAIL /\ ~HasFb
                  /\ opens' = <<Loc(Fp, rq.fb)>>
                  /\ Finish(Err(404)) /\ UNCHANGED <<rq, ntok, file>>
 
-BadDate     == /\ phase = "cond" /\ rq.ims = "bad"
+BadDate     == /\ phase = "cond" /\ rq.ims.k = "bad"
                /\ Finish(Err(400)) /\ UNCHANGED <<rq, ntok, file, opens>>
-NotModified304 == /\ phase = "cond" /\ rq.ims # "bad" /\ NotModified(rq.ims)
+NotModified304 == /\ phase = "cond" /\ rq.ims.k # "bad" /\ NotModified(rq)
                /\ Finish(Resp(304, <<>>, NoCR, -1)) /\ UNCHANGED <<rq, ntok, file, opens>>
-Modified    == /\ phase = "cond" /\ rq.ims # "bad" /\ ~NotModified(rq.ims)
+Modified    == /\ phase = "cond" /\ rq.ims.k # "bad" /\ ~NotModified(rq)
                /\ phase' = "range" /\ UNCHANGED <<rq, ntok, file, opens, resp>>
 
 RangeResult  == RangeDesign(Content(file), rq.range)
@@ -101,5 +104,7 @@ ContentRangeConsistent == (Served /\ resp.status = 206) =>
                   /\ resp.clen = resp.cr[2] - resp.cr[1] + 1 /\ resp.clen = Len(resp.body) /\ resp.clen > 0
 ZeroSizeIgnoresRange == (Served /\ Len(Content(file)) = 0 /\ resp.status \notin {304, 400}) => (resp.status = 200 /\ resp.body = <<>>)
 UnsatCarriesSize == (Served /\ resp.status = 416) => (resp.cr = Star(Len(Content(file))) /\ Len(Content(file)) > 0)
-NotModifiedNoBody == (Done /\ resp.status = 304) => (resp.body = <<>> /\ rq.ims \in {"equal", "later"} /\ file # FAIL)
+NotModifiedNoBody == (Done /\ resp.status = 304) => (resp.body = <<>> /\ rq.ims.k = "date" /\ rq.ims.d >= 0 /\ file # FAIL)
+(* the time zone of the process is an environment dimension: the whole outcome is the same under every zone *)
+DecisionIndependentOfZone == Done => \A z \in AllZones : Expected([rq EXCEPT !.zone = z]) = Expected(rq)
 =============================================================================
